@@ -201,7 +201,7 @@ pub fn c04_program(rng: &mut Rng, with_di: bool) -> (Vec<u8>, u8) {
     for _ in 0..n {
         let r = rng.byte() % 3;
         let r2 = rng.byte() % 3;
-        let ins: Vec<u8> = match rng.below(14) {
+        let ins: Vec<u8> = match rng.below(15) {
             0 => vec![0xFB, rng.byte(), 0x10 + r],                   // LD r, const
             1 => vec![0x60 + (r2 << 2) + r],                         // ADD
             2 => vec![0x80 + (r2 << 2) + r],                         // SUB
@@ -215,6 +215,7 @@ pub fn c04_program(rng: &mut Rng, with_di: bool) -> (Vec<u8>, u8) {
             10 => vec![0x18, 0x1C],                                  // PUSHF ; POPF
             11 if with_di => vec![0x0C, 0x44 + r, 0x08],             // DI ; INC ; EI
             12 => vec![0xF0 + r, 0x20 + r2],                         // CMP r2, r
+            13 if with_di => vec![0xFB, 0x01, 0x6F, 0xF9, 0x44 + r, 0xFB, 0x01, 0x5F, 0xF9], // BITC (0xF9),1 ; INC ; BITS (0xF9),1
             _ => vec![0x30 + r],                                     // COM
         };
         body.push(ins);
@@ -299,6 +300,40 @@ fn ie_at_next_sample(s: &Sess) -> bool {
     false
 }
 
+/// Two key presses: after `t1` edges and `d` edges later; the expected number of routine entries follows from the
+/// enable bit at each press and IEF at the sampling point that looks at it (a press while the flip-flop is still set
+/// merges with the earlier one; a press while the enable bit is clear changes nothing).
+fn two_presses(out: &mut Out, load: &str, reference: &str, spin: u8, t1: usize, d: usize) {
+    let mut s = Sess::new();
+    run_line(out, &mut s, "new");
+    run_line(out, &mut s, load);
+    run_line(out, &mut s, &format!("edges {}", t1));
+    let micr1 = s.m.bus().is_key_edge_int_enabled();
+    let ie1 = ie_at_next_sample(&s);
+    run_line(out, &mut s, "irq");
+    run_line(out, &mut s, &format!("edges {}", d));
+    let merged = s.m.verif_state().pending_edge_interrupt;
+    let micr2 = s.m.bus().is_key_edge_int_enabled();
+    let ie2 = ie_at_next_sample(&s);
+    run_line(out, &mut s, "irq");
+    run_line(out, &mut s, "spec.micr");
+    run_line(out, &mut s, "d");
+    run_line(out, &mut s, "edges 300");
+    run_line(out, &mut s, "d");
+    settle(&mut s, spin);
+    let count = s.m.bus().memory()[CNT as usize];
+    let transparent = arch_view(&s) == reference;
+    if merged {
+        // one request is pending (from the first press); it is looked at once, at the next sampling point
+        out.emit(&format!("spec.c04 1 {}", ie2 as u8), &format!("count={} transparent={}", count, transparent as u8));
+    } else {
+        out.emit(
+            &format!("spec.c04two {} {} {} {}", micr1 as u8, ie1 as u8, micr2 as u8, ie2 as u8),
+            &format!("count={} transparent={}", count, transparent as u8),
+        );
+    }
+}
+
 pub fn run_c04(out: &mut Out, seed: u64, thorough: bool) {
     use emulator_2a_lib::machine::RegisterNumber as RN;
     let mut rng = Rng::new(seed);
@@ -315,6 +350,9 @@ pub fn run_c04(out: &mut Out, seed: u64, thorough: bool) {
         base.apply(&load);
         let mut t_total = 0;
         let mut arrived = false;
+        // clock cycles after which the key-edge enable bit has just changed (mask writes of the program)
+        let mut mask_flips: Vec<usize> = vec![];
+        let mut last_mask = base.m.bus().is_key_edge_int_enabled();
         for _ in 0..20000 {
             if base.m.is_instruction_done() && *base.m.registers().get(RN::R3) == spin {
                 arrived = true;
@@ -322,6 +360,11 @@ pub fn run_c04(out: &mut Out, seed: u64, thorough: bool) {
             }
             base.m.raw_mut().trigger_clock_edge();
             t_total += 1;
+            let now = base.m.bus().is_key_edge_int_enabled();
+            if now != last_mask {
+                mask_flips.push(t_total);
+                last_mask = now;
+            }
         }
         if !arrived {
             out.count("program-skipped-too-long");
@@ -425,38 +468,19 @@ pub fn run_c04(out: &mut Out, seed: u64, thorough: bool) {
                     continue;
                 }
                 for d in 0..(if thorough { 140 } else { 100 }) {
-                    let mut s = Sess::new();
-                    run_line(out, &mut s, "new");
-                    run_line(out, &mut s, &load);
-                    run_line(out, &mut s, &format!("edges {}", t1));
-                    let micr1 = s.m.bus().is_key_edge_int_enabled();
-                    let ie1 = ie_at_next_sample(&s);
-                    run_line(out, &mut s, "irq");
-                    run_line(out, &mut s, &format!("edges {}", d));
-                    // while the first request is still pending a second press merges with it
-                    let merged = s.m.verif_state().pending_edge_interrupt;
-                    let micr2 = s.m.bus().is_key_edge_int_enabled();
-                    let ie2 = ie_at_next_sample(&s);
-                    run_line(out, &mut s, "irq");
-                    run_line(out, &mut s, "spec.micr");
-                    run_line(out, &mut s, "d");
-                    run_line(out, &mut s, "edges 300");
-                    run_line(out, &mut s, "d");
-                    settle(&mut s, spin);
-                    let count = s.m.bus().memory()[CNT as usize];
-                    let transparent = arch_view(&s) == reference;
-                    if merged {
-                        out.emit(
-                            &format!("spec.c04 {} {}", (micr1 || micr2) as u8, ie2 as u8),
-                            &format!("count={} transparent={}", count, transparent as u8),
-                        );
-                    } else {
-                        out.emit(
-                            &format!("spec.c04two {} {} {} {}", micr1 as u8, ie1 as u8, micr2 as u8, ie2 as u8),
-                            &format!("count={} transparent={}", count, transparent as u8),
-                        );
-                    }
+                    two_presses(out, &load, &reference, spin, *t1, d);
                     out.count("press-during-routine");
+                }
+            }
+        }
+        // two presses around every point where the program changes the enable mask (a press while the bit is
+        // clear must not disturb a request accepted just before, nor be remembered for later)
+        for f in mask_flips.iter().take(if thorough { 8 } else { 3 }) {
+            let lo = f.saturating_sub(10);
+            for a in lo..(f + 2) {
+                for d in 1..(if thorough { 16 } else { 9 }) {
+                    two_presses(out, &load, &reference, spin, a, d);
+                    out.count("presses-around-mask-change");
                 }
             }
         }
